@@ -117,5 +117,22 @@ Section KL.
     let at_ i j := nth (clampi j ncl) (nth (clampi i nrw) pol []) (nzero O) in
     ((none O - fr) * ((none O - fc) * at_ r0 c0 + fc * at_ r0 (c0 + 1)%Z))
     + (fr * ((none O - fc) * at_ (r0 + 1)%Z c0 + fc * at_ (r0 + 1)%Z (c0 + 1)%Z)).
+  (* pcgeom (ncmar = 0): fractional polar indices of Cartesian pixel (i, j) -- cr along the radial axis of the
+     polar array (linear in r^2: the equal-area grid of `radii`), cp along the azimuthal axis; both clipped *)
+  Definition nclip (x lo hi : T) : T := nmin O (nmax O x lo) hi.
+  Definition geom_cr (ncp : nat) (ri : T) (nr : nat) (i j : nat) : T :=
+    let c2 := nsqr O (car_coord ncp j) + nsqr O (car_coord ncp i) in
+    nclip (((c2 - nsqr O ri) / (none O - nsqr O ri)) * kz nr) (nofQ O 1 1000) (kz nr - nofQ O 1001 1000).
+  Definition geom_cp (ncp : nat) (npp : nat) (i j : nat) : T :=
+    let dpi := two * npi O in
+    let a := natan2 O (car_coord ncp i) (car_coord ncp j) + dpi in
+    let a := if nleb O dpi a then a - dpi else a in
+    nclip ((kz npp / dpi) * a) (nofQ O 1 1000) (kz npp - nofQ O 1001 1000).
+  (* pol2car / make_kl pixel *)
+  Definition kl_pixel (pol : mat) (ri : T) (nr npp ncp : nat) (mask : bool) (i j : nat) : T :=
+    let v := bilinear pol (geom_cr ncp ri nr i j) (geom_cp ncp npp i j) in
+    if mask then v * (if pupil_px ncp ri i j then none O else nzero O) else v.
+  Definition kl_image (pol : mat) (ri : T) (nr npp ncp : nat) (mask : bool) : mat :=
+    map (fun i => map (fun j => kl_pixel pol ri nr npp ncp mask i j) (seq 0 ncp)) (seq 0 ncp).
   End Ops2.
 End KL.
